@@ -317,19 +317,29 @@ def gen_f(rng):
                                                   for _ in range(rng.choice([1, 2, 3]))]}
 
 
+def gen_operand(rng, want, depth):
+    """an operand whose arity is `want` most of the time; with depth > 0 possibly a chain used as one operand
+    (self-consistent or not, of the wanted arity or not)"""
+    n = want if rng.random() < 0.72 else rng.choice([0, 1, 2, 3, 4])
+    if depth <= 0 or rng.random() < 0.45:
+        return n
+    ops = [[rng.choice(impl.SETOPS), gen_operand(rng, n, depth - 1)] for _ in range(rng.choice([1, 1, 2, 3]))]
+    return ["nest", n, ops]
+
+
 def gen_s(rng):
     base = rng.choice([0, 1, 1, 2, 2, 3])
     calls = []
     for _ in range(rng.choice([1, 2, 3, 4, 6])):
         r = rng.random()
         if r < 0.55:
-            calls.append(["add", rng.choice(impl.SETOPS), base if rng.random() < 0.7 else rng.choice([0, 1, 2, 3, 4])])
+            calls.append(["add", rng.choice(impl.SETOPS), gen_operand(rng, base, 2 if rng.random() < 0.5 else 0)])
         elif r < 0.9:
             calls.append(["render"])
         elif any(c[0] == "add" for c in calls):
             calls.append(["noise", rng.randrange(2)])
     calls.append(["render"])
-    return {"kind": "s", "cls": rng.choice(["Query", "Query", "MySQLQuery", "PostgreSQLQuery", "OracleQuery", "MSSQLQuery"]),
+    return {"kind": "s", "cls": rng.choice(["Query", "Query", "MySQLQuery", "PostgreSQLQuery", "OracleQuery", "MSSQLQuery", "SQLLiteQuery"]),
             "base": base, "calls": calls}
 
 
